@@ -55,7 +55,14 @@ def intfAnswer (t : T) (i : Nat) : String :=
     encE toString (nativeVlan f),
     encE (fun l => encStr (Range.compress l)) (trunkVlansAllowed f),
     toString (portchannelNumber f),
-    encBool (isInPortchannel f)]
+    encBool (isInPortchannel f),
+    (match port s with | some p => toString p | none => "err"),
+    encStr (ipv4Addr f)]            -- `ip_addr`, the alias of `ipv4_addr`
+
+def encRouteErr {α : Type} (f : α → String) : Except RouteErr α → String
+  | .ok a => f a
+  | .error .valueError => "err:ValueError"
+  | .error .notImplementedError => "err:NotImplementedError"
 
 def routeAnswer (s : Str) : String :=
   if !isRouteLine s then "notroute" else
@@ -67,7 +74,8 @@ def routeAnswer (s : Str) : String :=
       (match r.masklen with | some n => toString n | none => "err"),
       encStr r.nextHopInterface, encStr r.nextHopAddr, toString r.adminDistance,
       encStr r.routeName, encStr r.trackingObjectName, encStr r.tagText,
-      encBool r.permanent, encBool r.multicast, encBool r.globalNextHop]
+      encBool r.permanent, encBool r.multicast, encBool r.globalNextHop,
+      encStr r.addressFamily, encStr r.nexthopStr, encRouteErr encStr r.nexthopVrf, encRouteErr encBool r.unicast]
 
 /-- `ios intf <index> <lines>` | `ios route <line>` -/
 def handle : List String → String
